@@ -353,6 +353,23 @@ theorem watch_reads_value (v : Val) (cfg : Cfg) (s : St) (hI : Inv fn s) (hne : 
       subst hd'
       simp [hne, hdes (serialize fn v s) rfl]
 
+/-- `FileCache.serialize` always (re)writes its file: whatever was at that name before — nothing, the right bytes, or
+the partial file of an interrupted earlier write (`faultFc`) — recording the value again makes the file hold the
+payload, and the read gives the value back. -/
+theorem serialize_repairs_partial_file (p : Bytes) (s : St) :
+    lookup (fn p) (serialize fn (.fcache p) s).fc = some p ∧
+    lookup (fn p) (serialize fn (.fcache p) (faultFc fn p s)).fc = some p := by
+  simp [serialize, faultFc]
+
+theorem rerecord_after_faulted_first_write (p : Bytes) (cfg : Cfg) (s : St) (hI : Inv fn s) (hne : fn p ≠ [])
+    (hle : (fn p).length ≤ cfg.maxSize) (hC : Complete s) :
+    ValueStore.get (key fn (.fcache p)) (record fn (.fcache p) cfg (faultFc fn p s)).1 = .ok (some (.fcache p)) := by
+  -- `record` looks at the FileCache files only through `serialize`, which overwrites: same result as from `s`
+  have h1 : record fn (.fcache p) cfg (faultFc fn p s) = record fn (.fcache p) cfg s := by
+    simp [record, serialize, faultFc, dropKey_cons_self, dropKey_idem]
+  rw [h1]
+  exact (roundtrip fn (.fcache p) cfg s hI hC (by simpa [ser] using hne) (by simpa [ser] using hle)).2
+
 /-- Remark, outside the quantifier of the theorems above (`ser fn v ≠ []`): a value whose serialisation is zero bytes
 is indistinguishable from the placeholder — recorded inline, it reads as absent. -/
 theorem zero_length_remark :
